@@ -464,12 +464,20 @@ def run_c11(tier, budget, rnd) -> StreamResult:
         in_class = all(g[2] for g in chosen[2:]) and cls != "sam_apx_1"
         procs = [1, 2, 5][bi % 3] if quick else rnd.choice([1, 2, 3, 5, 8])
         fresh = Fresh(n, cls, gapname)
-        explorable = [c for c in range(N) if c not in minimal]
+        all_explorable = [c for c in range(N) if c not in minimal]
+        # starting knowledge: the minimal information, or — every second case — the position reached after the environment
+        # was stepped once or twice ("starting knowledge containing the minimal information": the search starts from what the
+        # incomplete game knows NOW, which is more than the environment's initially-known list)
+        extra = sorted(rnd.sample(all_explorable, rnd.choice([1, 1, 2]))) if bi % 2 == 1 and len(all_explorable) > 3 else []
+        minimal_only = minimal
+        minimal = sorted(set(minimal) | set(extra))
+        explorable = [c for c in all_explorable if c not in extra]
         sampled = tables[2:2 + reps]          # ICG_Gym's constructor consumes two draws
         case_no += 1
         gt = f"b{case_no}"
         ctx = {"n": n, "max_steps": steps, "repetitions": reps, "processes": procs, "computer": cls, "gap": gapname,
-               "sampled_games": sampled}
+               "sampled_games": sampled, "stepped_before_search": extra}
+        res.count(f"best:start+{len(extra)}")
         cols = {}
         script.add(f"srch gt new {gt} {n} {reps}", "ok")
         for i in range(min(steps, len(explorable)) + 1):
@@ -489,6 +497,8 @@ def run_c11(tier, budget, rnd) -> StreamResult:
             ctx = dict(ctx_base, generator=genkind)
             env = ICG_Gym(ICG(n, BOUNDS[cls]), gencls(n, tables), minimal_game_coalitions(n), fresh.gapf,
                           done_after_n_actions=steps)
+            for c_ in extra:                  # reveal through the environment's own step(), then search from that position
+                env.step([x.id for x in env.explorable_coalitions].index(c_))
             try:
                 with warnings.catch_warnings():
                     warnings.simplefilter("ignore")
